@@ -191,6 +191,9 @@ def cases(rng, tier, stats):
                 ('দেখাও "x";\nমডিউল ম = "main.pakhi";\n', []), ('মডিউল ম = "sub/" + "c.pakhi";\nদেখাও "x";\n', None),
                 ('মডিউল ম = "sub" + "c.pakhi";\nদেখাও "x";\n', None), ('মডিউল ম = ৫;\n', []), ('মডিউল\n', []), ('মডিউল ম = "b.pakhi"\n', [("b.pakhi", 'দেখাও "b";')]),
                 ('মডিউল ম = "b.pakhi";\n', [("b.pakhi", 'দেখাও "খোলা;')]), ('মডিউল ম = "b.pakhi";\n', [("b.pakhi", 'দেখাও $;')])]
+    # paths without the extension that have no final file-name component either, and other degenerate texts: an error value
+    for bad in ("", ".", "./", "..", "sub/..", "/", "sub/", "sub", ".pakhi", "sub/.pakhi", "x.pakhi/", " ", "b.pakhi ", "b.PAKHI"):
+        specials.append(('দেখাও "আগে";\nমডিউল ম = "' + bad + '";\nদেখাও "x";\n', [("b.pakhi", 'দেখাও "b";'), ("sub/c.pakhi", 'দেখাও "c";')]))
     for src, files in specials:
         lines = ["RESET"]
         ok_expected = files is None
